@@ -237,6 +237,9 @@ class DENMTransmissionManagement:
         """
         Function to transmits consecutive DENM message.
 
+        A repetition that cannot be built, encoded or handed to the transport layer is logged and
+        skipped; the remaining repetitions of the event keep their schedule.
+
         Parameters
         ----------
         denm_request : DENRequest
@@ -245,11 +248,18 @@ class DENMTransmissionManagement:
         sequence_number = self.allocate_sequence_number()
         transmission_time = 0
         while transmission_time < denm_request.time_period:
-            new_denm = DecentralizedEnvironmentalNotificationMessage()
-            new_denm.sequence_number = sequence_number
-            new_denm.fullfill_with_vehicle_data(self.vehicle_data)
-            new_denm.fullfill_with_denrequest(denm_request)
-            self.transmit_denm(new_denm)
+            try:
+                new_denm = DecentralizedEnvironmentalNotificationMessage()
+                new_denm.sequence_number = sequence_number
+                new_denm.fullfill_with_vehicle_data(self.vehicle_data)
+                new_denm.fullfill_with_denrequest(denm_request)
+                self.transmit_denm(new_denm)
+            except Exception:  # pylint: disable=broad-except
+                # One failed repetition must not end the repetition thread: the event would
+                # silently stop being announced for the rest of its duration.
+                self.logging.exception(
+                    "DENM repetition at %s ms of %s ms failed - skipped",
+                    transmission_time, denm_request.time_period)
             time.sleep(denm_request.denm_interval / 1000)
             transmission_time += denm_request.denm_interval
 
